@@ -208,6 +208,9 @@ func (p *jsonPathParser) setConnectedText(targetNode syntaxNode, postfix ...stri
 	targetNode.setConnectedText(targetNode.getText() + appendText)
 
 	if multiIdentifier, ok := targetNode.(*syntaxChildMultiIdentifier); ok {
+		for _, identifier := range multiIdentifier.identifiers {
+			identifier.setConnectedText(targetNode.getConnectedText())
+		}
 		if multiIdentifier.isAllWildcard {
 			multiIdentifier.unionQualifier.setConnectedText(targetNode.getConnectedText())
 		}
@@ -258,6 +261,9 @@ func (p *jsonPathParser) setLastNodeText(text string) {
 	node.setText(text)
 
 	if multiIdentifier, ok := node.(*syntaxChildMultiIdentifier); ok {
+		for _, identifier := range multiIdentifier.identifiers {
+			identifier.setText(text)
+		}
 		if multiIdentifier.isAllWildcard {
 			multiIdentifier.unionQualifier.setText(text)
 		}
